@@ -64,4 +64,14 @@ for cls, rv in job['pairs']:
         out.append(['ValueError', None, None, None])
     except Exception as ex:
         out.append([type(ex).__name__, None, None, None])
+    # the same call once more, right away: a verdict depends on the value, not on the value having been offered (and refused, or accepted) before
+    try:
+        getattr(ST, cls)(v)
+        out[-1].append('ok')
+    except TypeError:
+        out[-1].append('TypeError')
+    except ValueError:
+        out[-1].append('ValueError')
+    except Exception as ex:
+        out[-1].append(type(ex).__name__)
 json.dump(out, sys.stdout)
